@@ -907,3 +907,48 @@ func HarnessEnumReadBack() {
 	}
 	verifAssert(len(got.Info) == len(enum.Info) && (len(enum.Info) == 0 || (got.Info[0].Name == "colour" && got.Info[0].Label == "Colour")), "info-fields")
 }
+
+// HarnessAppendServiceNameCollision (C13): a service (or topic) appended at the
+// end of a file generates messages named <Method>Request / <Method>Response /
+// <Name>Message in a sub-package; when the file already declares an object of
+// that very name which a field refers to, the existing field must keep pointing
+// at the existing object.
+func HarnessAppendServiceNameCollision() {
+	which := ndChoice("collidingName", 3)
+	objName := []string{"LaterRequest", "LaterResponse", "LaterMessage"}[which]
+	build := func(appended bool) *sourcedef_j5pb.SourceFile {
+		els := []*sourcedef_j5pb.RootElement{
+			verifObjectElement(objName, []*schema_j5pb.ObjectProperty{{Name: "a", Schema: verifField(fString)}}),
+			verifObjectElement("Holder", []*schema_j5pb.ObjectProperty{{Name: "req", Schema: &schema_j5pb.Field{Type: &schema_j5pb.Field_Object{Object: &schema_j5pb.ObjectField{
+				Schema: &schema_j5pb.ObjectField_Ref{Ref: &schema_j5pb.Ref{Schema: objName}}}}}}}),
+		}
+		if appended {
+			if which == 2 {
+				evt := "Later"
+				els = append(els, &sourcedef_j5pb.RootElement{Type: &sourcedef_j5pb.RootElement_Topic{Topic: &sourcedef_j5pb.Topic{Name: "Gadget", Type: &sourcedef_j5pb.TopicType{
+					Type: &sourcedef_j5pb.TopicType_Publish_{Publish: &sourcedef_j5pb.TopicType_Publish{Messages: []*sourcedef_j5pb.TopicMethod{{Name: &evt,
+						Fields: []*schema_j5pb.ObjectProperty{{Name: "payload", Schema: verifField(fString)}}}}}}}}}})
+			} else {
+				svcName, base := "Widget", "/a/v1"
+				els = append(els, &sourcedef_j5pb.RootElement{Type: &sourcedef_j5pb.RootElement_Service{Service: &sourcedef_j5pb.Service{Name: &svcName, BasePath: &base,
+					Methods: []*sourcedef_j5pb.APIMethod{{Name: "Later", HttpPath: "/later", HttpMethod: client_j5pb.HTTPMethod_POST,
+						Request:  &sourcedef_j5pb.AnonymousObject{Properties: []*schema_j5pb.ObjectProperty{{Name: "x", Schema: verifField(fString)}}},
+						Response: &sourcedef_j5pb.AnonymousObject{Properties: []*schema_j5pb.ObjectProperty{{Name: "y", Schema: verifField(fString)}}}}}}}})
+			}
+		}
+		return verifSourceFile(els...)
+	}
+	before, err1 := verifCompile(build(false))
+	after, err2 := verifCompile(build(true))
+	verifAssert(err1 == nil && err2 == nil, "both-compile")
+	if err1 != nil || err2 != nil {
+		return
+	}
+	for _, fa := range before {
+		fb := verifFindFile(after, fa.GetName())
+		verifAssert(fb != nil, "every-file-still-emitted")
+		if fb != nil {
+			verifAssert(verifFilePreserved(fa, fb), "existing-messages-and-field-types-unchanged")
+		}
+	}
+}
